@@ -1,4 +1,10 @@
 import VermouthModel.C03
+import VermouthModel.C03_Text
+import VermouthModel.C03_Top
+import VermouthModel.C03_Sort
+import VermouthModel.C03_Hist
+import Generated.C16Layout
+import Generated.C02Tables
 open Proto C03
 
 /- request:  sys <dedup 0|1> <exact 0|1> [ mol* ]
@@ -76,6 +82,112 @@ def encSysOut (o : SysOut) : String :=
     ++ " includes " ++ encNats o.includes ++ " src " ++ encPairs o.src
     ++ " pdb " ++ encRecs o.pdb ++ " gro " ++ encRecs o.gro ++ " itp " ++ encRecs o.itp
 
+/-! ### text level (C03_Text / C03_Top): request
+
+   text <dedup 0|1> <molname> <conect 0|1> [ tmol* ] [ header-line* ] [ define* ] [ [cite*]* ]
+        [ param-key* ] <itp_paths: - | [ [key path]* ]> <names: - | [ name* ]>
+   tmol  := [ mol [ deco* ] shell ]
+   deco  := [ charge mass x y z occ temp ]        (strings; ints in 0.001 nm; occ/temp '-' or int/100)
+   shell := [ nrexcl [ [name value]* ] [ [name [ inter* ]]* ] [ [sect [line*]]* ] [ [sect [line*]]* ] ]
+   inter := [ [key*] [param*] ifdef ifndef group comment ]
+   response: ok <names> params [ file* ] itps [ [stem idx text]* ] top xTEXT pdb (ok [ line* ] | err e) gro [ line* ]
+           | err <e> pdb ... gro ... -/
+
+def decoOf (t : Tok) : Option Deco := do
+  match ← t.list? with
+  | [c, m, x, y, z, o, tf] =>
+    pure { charge := ← c.str?, mass := ← m.str?, x := ← x.int?, y := ← y.int?, z := ← z.int?,
+           occ := ← o.optInt?, temp := ← tf.optInt? }
+  | _ => none
+
+def c02InterOf (t : Tok) : Option C02.Inter := do
+  match ← t.list? with
+  | [as, ps, d, nd, g, c] =>
+    pure { atoms := ← ints? as, params := ← strs? ps, ifdef := ← d.optStr?, ifndef := ← nd.optStr?,
+           group := ← g.optStr?, comment := ← c.optStr? }
+  | _ => none
+
+def namedOf {α} (f : Tok → Option α) (t : Tok) : Option (String × α) := do
+  match ← t.list? with
+  | [n, v] => pure (← n.str?, ← f v)
+  | _ => none
+
+def shellOf (t : Tok) : Option C02.Mol := do
+  match ← t.list? with
+  | [nr, defs, inters, pre, post] =>
+    pure { moltype := "", nrexcl := ← nr.str?, header := [],
+           defines := ← (← defs.list?).mapM (namedOf Tok.str?), atoms := [],
+           inters := ← (← inters.list?).mapM (namedOf (fun v => do (← v.list?).mapM c02InterOf)),
+           pre := ← (← pre.list?).mapM (namedOf strs?), post := ← (← post.list?).mapM (namedOf strs?) }
+  | _ => none
+
+def tmolOf (t : Tok) : Option TMol := do
+  match ← t.list? with
+  | [m, ds, sh] => pure { mol := ← molOf m, deco := ← (← ds.list?).mapM decoOf, shell := ← shellOf sh }
+  | _ => none
+
+def charsOf (t : Tok) : Option (List (List Char)) := do
+  pure ((← strs? t).map String.toList)
+
+def encChars (s : List Char) : String := encStr (String.ofList s)
+def encLines (ls : List (List Char)) : String := encList (ls.map encChars)
+
+def encC02Err : C02.Err → String
+  | .valueerror => "valueerror" | .keyerror => "keyerror" | .indexerror => "indexerror"
+
+def encTopErr : TopErr → String
+  | .valueerror => "valueerror" | .indexerror => "indexerror" | .typeerror => "typeerror"
+  | .keyerror => "keyerror" | .itp e => "itp-" ++ encC02Err e
+
+def encTopParsed (p : TopParsed) : String :=
+  encList [encList (p.defines.map encLines), encLines p.includes,
+           encList (p.molecules.map fun g => encList [encChars g.1, encNat g.2])]
+
+def textOp (pipeline : Bool) (dedup : Bool) (molname : String) (conect : Bool) (sys0 : List TMol)
+    (header defines : List (List Char))
+    (cites : List (List (List Char))) (params : List String) (paths : Option (List (String × String)))
+    (given : Option (List String)) : String :=
+  let names : List String := match given with
+    | some ns => ns
+    | none => (nameMolTypes (shareMolType npClose) dedup (sys0.map (·.mol))).map (molName molname)
+  let inp0 : TopIn :=
+    { sys := sys0, names := names.map String.toList, cites := cites, header := header,
+      defines := defines, params := params, itpPaths := paths }
+  -- `pipe`: martinize2's order (names of the unsorted molecules, then SortMoleculeAtoms(), then the writers)
+  let inp : TopIn := if pipeline then pipelineIn dedup molname inp0 else inp0
+  let sys := inp.sys
+  let topPart := match writeTopology inp with
+    | .error e => "err " ++ encTopErr e
+    | .ok o =>
+      let rt := match parseTop o.top with
+        | .ok p => encTopParsed p
+        | .error _ => "perr"
+      "ok " ++ encList (names.map encStr) ++ " params " ++ encList (o.paramFiles.map encStr)
+        ++ " itps " ++ encList (o.itps.map fun (n, i, _, text) => encList [encChars n, encNat i, encStr text])
+        ++ " top " ++ encChars o.top ++ " parsed " ++ rt
+  let pdbPart := match pdbLines C16.Layout.pdb conect sys with
+    | .ok ls => "ok " ++ encLines ls
+    | .error e => "err " ++ e.toString
+  topPart ++ " pdb " ++ pdbPart ++ " gro " ++ encLines (groLines C16.Layout.gro sys)
+
+/-! ### molecule objects (C03_Hist): request  heap [ mol* ] [ ev* ],  ev := [ 0 dedup mn [ obj* ] ] | [ 1 [ obj* ] ]
+    response: one entry per write event, joined by ' | ':  names L groups L includes L src L  |  keyerror -/
+
+def evOf (t : Tok) : Option Ev := do
+  match ← t.list? with
+  | [Tok.int 0, d, mn, ss] => pure (Ev.name ((← d.nat?) != 0) (← mn.nat?) (← nats? ss))
+  | [Tok.int 1, ss] => pure (Ev.write (← nats? ss))
+  | _ => none
+
+def encMName (n : MName) : String := encList [encNat n.1, encNat n.2]
+
+def encHeapOut : Option (TopOut MName) → String
+  | none => "keyerror"
+  | some o =>
+    "groups " ++ encList (o.groups.map fun g => encList [encMName g.1, encNat g.2])
+      ++ " includes " ++ encList (o.includes.map encMName)
+      ++ " src " ++ encList (o.itps.map fun g => encList [encMName g.1, encNat g.2])
+
 def handle (_ : Unit) (toks : List Tok) : Unit × String :=
   let r : Option String :=
     match toks with
@@ -91,6 +203,47 @@ def handle (_ : Unit) (toks : List Tok) : Unit × String :=
         let dedup := (← d.nat?) != 0
         let syss ← (← ss.list?).mapM (fun t => do (← t.list?).mapM molOf)
         pure (" | ".intercalate ((historyOut npClose dedup syss).map encSysOut))
+    | [Tok.str "text", d, mn, c, ms, hd, defs, cs, ps, paths, given] => do
+        let dedup := (← d.nat?) != 0
+        let conect := (← c.nat?) != 0
+        let sys ← (← ms.list?).mapM tmolOf
+        let cites ← (← cs.list?).mapM charsOf
+        let pathsV ← match paths with
+          | Tok.none => some none
+          | t => do
+              let l ← (← t.list?).mapM (namedOf Tok.str?)
+              pure (some l)
+        let givenV ← match given with
+          | Tok.none => some none
+          | t => do pure (some (← strs? t))
+        pure (textOp false dedup (← mn.str?) conect sys (← charsOf hd) (← charsOf defs) cites (← strs? ps) pathsV givenV)
+    | [Tok.str "pipe", d, mn, c, ms, hd, defs, cs, ps, paths] => do
+        let dedup := (← d.nat?) != 0
+        let conect := (← c.nat?) != 0
+        let sys ← (← ms.list?).mapM tmolOf
+        let cites ← (← cs.list?).mapM charsOf
+        let pathsV ← match paths with
+          | Tok.none => some none
+          | t => do
+              let l ← (← t.list?).mapM (namedOf Tok.str?)
+              pure (some l)
+        pure (textOp true dedup (← mn.str?) conect sys (← charsOf hd) (← charsOf defs) cites (← strs? ps) pathsV none)
+    | [Tok.str "sortmol", as, tg, ns] => do
+        -- SortMoleculeAtoms(sortby_attrs, target_attr).run_molecule: comparable flag, node keys in the new
+        -- order, value of the target attribute per node
+        let attrs ← strs? as
+        let target ← tg.optStr?
+        let nodes ← (← ns.list?).mapM atomOf
+        let r := sortMoleculeAtoms attrs target nodes
+        let tv := match target with
+          | some k => encList (r.map fun a => encVal (getAttr a k))
+          | none => "-"
+        pure (encBool (comparable attrs nodes) ++ " " ++ encList (r.map fun a => encInt a.key) ++ " " ++ tv)
+    | [Tok.str "heap", ms, es] => do
+        let mols ← (← ms.list?).mapM molOf
+        let evs ← (← es.list?).mapM evOf
+        let h : Heap := { mols := mols, names := mols.map fun _ => none }
+        pure (" | ".intercalate ((runEvents (shareMolType npClose) h evs).map encHeapOut))
     | [Tok.str "sorted", ns] => do
         let nodes ← (← ns.list?).mapM atomOf
         pure (encList ((sortedNodes nodes).map fun a => encInt a.key))
